@@ -44,7 +44,7 @@ def dispatch (d : DS) (line : String) : DS × String :=
   | "C18" :: rest => let (s, o) := Driver.Chan.handle "C18" d.chan rest; ({ d with chan := s }, o)
   | "C07" :: rest =>
     match rest with
-    | "new" :: _ | "hdl" :: _ | "add" :: _ | "invoke" :: _ => let (s, o) := Driver.C07.handle d.c07 rest; ({ d with c07 := s }, o)
+    | "new" :: _ | "hdl" :: _ | "add" :: _ | "invoke" :: _ | "ninvoke" :: _ => let (s, o) := Driver.C07.handle d.c07 rest; ({ d with c07 := s }, o)
     | _ => let (s, o) := Driver.Chan.handle "C07" d.chan rest; ({ d with chan := s }, o)
   | "C20" :: rest => let (s, o) := Driver.C20.handle d.c20 rest; ({ d with c20 := s }, o)
   | "C13" :: rest => let (s, o) := Driver.C13.handle d.c13 rest; ({ d with c13 := s }, o)
